@@ -32,6 +32,12 @@ pub struct SpiCase {
     #[serde(default)]
     pub alt: Option<(u8, u8)>,
     pub ops: Vec<SpiOp>,
+    /// (index of the call, k): the k-th pin / bus operation of that call fails once (if the call gets that far)
+    #[serde(default)]
+    pub faults: Vec<(u8, u16)>,
+    /// the failing operation still takes effect (pin level changes, bytes arrive) although it reports an error
+    #[serde(default)]
+    pub late: bool,
 }
 
 fn px_bytes(seed: u32, k: u32, n: usize) -> [u8; 4] {
@@ -52,6 +58,12 @@ fn exec<const N: usize>(di: &mut SpiInterface<'_, SpiDev, Pin>, w: &W, case: &Sp
         };
         let mut expected: Vec<(bool, u16)> = Vec::new();
         let allowed: u64;
+        let armed: Option<u64> = case.faults.iter().find(|f| f.0 as usize == idx).map(|f| ops0 + f.1 as u64);
+        {
+            let mut wb = w.borrow_mut();
+            wb.late_faults = case.late;
+            wb.fail_at = armed.into_iter().collect();
+        }
         let r: Result<(), SpiError<Fault, Fault>> = match op {
             SpiOp::Cmd { cmd, args } => {
                 expected.push((false, *cmd as u16));
@@ -177,8 +189,26 @@ fn exec<const N: usize>(di: &mut SpiInterface<'_, SpiDev, Pin>, w: &W, case: &Sp
                 allowed
             ));
         }
-        if let Err(e) = r {
-            return Err(format!("op {} {}: returned {:?} although no bus operation failed", idx, what, e));
+        let reached = armed.map_or(false, |a| wb.ops > a);
+        if let Err(e) = &r {
+            if !reached {
+                return Err(format!("op {} {}: returned {:?} although no bus operation failed", idx, what, e));
+            }
+            // a pin or bus operation failed and the call reported it: what reached the device up to
+            // then must be the beginning of the bytes to send; the calls that follow are judged in full
+            let got = &wb.latch_log[log0..];
+            if got.len() > expected.len() || got != &expected[..got.len()] {
+                let pos = got.iter().zip(expected.iter()).position(|(a, b)| a != b).unwrap_or(got.len().min(expected.len()));
+                return Err(format!(
+                    "op {} {}: operation {} of the call failed ({:?}); the bytes that reached the device in that call are not a prefix of the bytes to send: index {} got {:?}, expected {:?} [(dc_high, byte)]",
+                    idx, what, armed.unwrap() - ops0, e, pos, got.get(pos), expected.get(pos)
+                ));
+            }
+            drop(wb);
+            w.borrow_mut().fail_at.clear();
+            info.label(if case.late { "late-fault-inside-a-transfer" } else { "fault-inside-a-transfer" });
+            info.nontrivial = true;
+            continue;
         }
         // only electrical-level decode problems matter here (the Panel's command semantics do not)
         if let Some(e) = wb.decode_errors.iter().find(|e| e.contains("undefined") || e.contains("unexpected")) {
@@ -315,9 +345,13 @@ pub fn strategy(exclude_zero_repeat: bool) -> BoxedStrategy<SpiCase> {
                 count: if exclude_zero_repeat && count == 0 { 1 } else { count },
             });
             let alt = proptest::option::weighted(0.12, (1u8..=4, 1u8..4));
-            (Just(n), Just(buf), proptest::collection::vec(prop_oneof![2 => cmd, 3 => px, 3 => rp], 1..=(if buf > 60_000 { 3 } else { 8 })), alt)
+            let faults = prop_oneof![
+                3 => Just(Vec::new()),
+                2 => proptest::collection::vec((0u8..8, prop_oneof![4 => 0u16..6, 1 => 0u16..40]), 1..=2),
+            ];
+            (Just(n), Just(buf), proptest::collection::vec(prop_oneof![2 => cmd, 3 => px, 3 => rp], 1..=(if buf > 60_000 { 3 } else { 8 })), alt, faults, any::<bool>())
         })
-        .prop_map(|(n, buf, ops, alt)| SpiCase { n, buf, ops, alt })
+        .prop_map(|(n, buf, ops, alt, faults, late)| SpiCase { n, buf, ops, alt, faults, late })
         .boxed()
 }
 
